@@ -424,3 +424,10 @@ Definition is_allowed (allowed : list gallow) (all : list gwrite) (w : gwrite) :
   existsb (fun a => allow_matches a w && need_ok all a w) allowed.
 Definition not_allowed (allowed : list gallow) (ws : list gwrite) : list gwrite :=
   filter (fun w => negb (is_allowed allowed ws w)) ws.
+
+(* construction sites of tree.ResumeStack values (for the precondition of
+   Unpack's order-independence: one key at most) *)
+Inductive stack_keys := SKeys (n : N) | SKUnknown.
+Record stack_site := SS { ss_file : string; ss_line : N; ss_keys : stack_keys }.
+Definition single_key_site (s : stack_site) : bool :=
+  match ss_keys s with SKeys n => N.leb n 1 | SKUnknown => false end.
